@@ -99,6 +99,23 @@ fn values(ctx: &Ctx) -> Vec<RV> {
     v
 }
 
+/// Values whose printed form is long enough for any batching or buffering a formatter may do
+/// (seed C07-g1: byte vectors of more than 64 octets written in batches by one formatter only).
+fn long_c07() -> Vec<RV> {
+    let mut v = Vec::new();
+    for n in [15usize, 16, 17, 31, 32, 33, 63, 64, 65, 66, 127, 128, 129, 130, 255, 256, 257] {
+        v.push(RV::Bytes((0..n).map(|i| (i * 37 + n) as u8).collect()));
+    }
+    for n in [64usize, 65, 129, 257] {
+        v.push(RV::Str("aλ\"\n€".repeat(n / 5 + 1)));
+        v.push(RV::sym(&"s-y".repeat(n / 3 + 1)));
+        v.push(RV::list((0..n as i128).map(|i| RV::Int(i * 1000003 - 500)).collect()));
+        v.push(RV::Vector((0..n).map(|i| if i % 3 == 0 { RV::Char('λ') } else { RV::Float(i as f64 + 0.5) }).collect()));
+        v.push(RV::append((0..n).map(|i| RV::kw(&format!("k{}", i))).collect(), RV::sym("tail")));
+    }
+    v
+}
+
 fn pr_corner() -> Vec<PR> {
     let d = PR::default_();
     let mut v = vec![d, PR::elisp()];
@@ -312,6 +329,8 @@ pub fn replay(sub: &str, case: &J, acc: &mut Acc) {
         let fake = Ctx { prop: "C07".into(), tier: crate::report::Tier::Thorough, seed: 0, verif_dir: String::new(), repo: String::new(), hooks: false, nofast_bin: None, only: None, threads: 1 };
         let mut v = values(&fake);
         v.extend(formatter_values());
+        v.extend(long_c07());
+        v.extend(crate::props::c01::long_values());
         v
     };
     let m = match find_value(&ctx_vals, case["value"].as_str().unwrap_or("")) {
@@ -450,6 +469,8 @@ fn formatter_values() -> Vec<RV> {
             v.push(RV::Str(c.to_string()));
         }
     }
+    v.extend(long_c07());
+    v.extend(crate::props::c01::long_values());
     v
 }
 
@@ -514,6 +535,20 @@ pub fn run(ctx: &Ctx) -> Report {
     let base = vals.len();
     let mut vals_all = vals.clone();
     vals_all.extend(ax.iter().cloned());
+    // long values: uniform sinks only (the deviation-bounded schedules stay on the short ones)
+    let long = long_c07();
+    let base_long = vals_all.len();
+    vals_all.extend(long.iter().cloned());
+    for (j, _) in long.iter().enumerate() {
+        for e in ENTRY_DEFAULT {
+            triples.push((base_long + j, e, None));
+        }
+        for p in [PR::default_(), PR::elisp()] {
+            for e in ENTRY_CUSTOM {
+                triples.push((base_long + j, e, Some(p)));
+            }
+        }
+    }
     for (j, _) in ax.iter().enumerate() {
         for pi in 0..N_PR {
             let p = PR::from_index(pi);
@@ -564,10 +599,11 @@ pub fn run(ctx: &Ctx) -> Report {
         rep.absorb(sub, accs);
     }
     if ctx.want("display") {
-        let sub = Sub::new("display", "Display / format! for every value: same text as to_string; a fmt sink failing at the n-th write_str call for every n: write! returns Err and the sink holds a prefix; non-trivial = a failing sink", &format!("{} values", vals.len()));
-        let accs = par_ranks(vals.len() as u64, |rank, acc| {
-            acc.sample(rank, || vals[rank as usize].to_string());
-            run_display(acc, rank, &vals[rank as usize]);
+        let sub = Sub::new("display", "Display / format! for every value: same text as to_string; a fmt sink failing at the n-th write_str call for every n: write! returns Err and the sink holds a prefix; non-trivial = a failing sink", &format!("{} values (the short ones and the long byte vectors / strings / lists)", vals.len() + long_c07().len()));
+        let dv: Vec<RV> = vals.iter().cloned().chain(long_c07()).collect();
+        let accs = par_ranks(dv.len() as u64, |rank, acc| {
+            acc.sample(rank, || trunc(&dv[rank as usize].to_string(), 200));
+            run_display(acc, rank, &dv[rank as usize]);
         });
         rep.absorb(sub, accs);
     }
@@ -583,6 +619,36 @@ pub fn run(ctx: &Ctx) -> Report {
             let m1 = &firsts[r / corner.len() / seconds.len()];
             acc.sample(rank, || format!("{} then {} [{}]", m1, m2, p.describe()));
             check_printer_reuse(acc, rank, m1, m2, p);
+        });
+        rep.absorb(sub, accs);
+    }
+    if ctx.want("serde-writers") {
+        // the Serde front end has its own to_writer / to_writer_custom (seed C07-g2)
+        let fam = crate::serde_fam::family_core();
+        let budget = crate::props::c04::budget(false);
+        let mut cases: Vec<(usize, usize)> = Vec::new();
+        for (ti, r) in fam.iter().enumerate() {
+            let n = r.count(&budget);
+            let step = if ctx.tier.thorough() { 1 } else { (n / 40).max(1) };
+            let mut i = 0;
+            while i < n {
+                cases.push((ti, i));
+                i += step;
+            }
+        }
+        let sub = Sub::new("serde-writers", "serde_lexpr::to_writer and to_writer_custom(elisp) for inhabitants of every core Serde type: sinks accepting at most k bytes per call (k=1,2,3,5,unbounded) and a hard error / zero-byte acceptance at every output offset (k=1 and unbounded); oracle as for uniform-sinks, reference text = serde_lexpr::to_string / to_string_custom; non-trivial = every case", &format!("{} (type, inhabitant) pairs over {} types", cases.len(), fam.len()));
+        let accs = par_ranks(cases.len() as u64, |rank, acc| {
+            let (ti, i) = cases[rank as usize];
+            let r = &fam[ti];
+            acc.sample(rank, || format!("{} = {}", r.name(), r.describe(&budget, i)));
+            let (fails, runs) = r.writers(&budget, i);
+            acc.evals += runs;
+            acc.nontrivial += runs;
+            acc.outcome(&(ti, runs.min(64)));
+            for (kind, detail) in fails.into_iter().take(3) {
+                let cls = kind.clone();
+                acc.violation("serde-writers", &kind, &cls, rank, format!("{} = {}", r.name(), r.describe(&budget, i)), detail, || json!({"serde_type": ti, "inhabitant": i}));
+            }
         });
         rep.absorb(sub, accs);
     }
